@@ -5,6 +5,7 @@ package main
 
 import (
 	"context"
+	"runtime"
 	"encoding/hex"
 	"encoding/json"
 	"fmt"
@@ -82,7 +83,7 @@ func docOf(k, v []byte) map[string]interface{} {
 func (w *World) RunScript(lines []string) (err error) {
 	defer func() {
 		if r := recover(); r != nil {
-			w.printf("panic %v\n", strings.ReplaceAll(fmt.Sprint(r), "\n", " "))
+			w.printf("panic %v @ %s\n", strings.ReplaceAll(fmt.Sprint(r), "\n", " "), panicSite())
 			err = nil
 		}
 		w.out.Flush()
@@ -112,6 +113,16 @@ func (w *World) RunScript(lines []string) (err error) {
 			if name == "" {
 				name = "db-" + toks[1]
 			}
+			if a["leak"] == "1" {
+				// baseline of store-layer goroutines before this scenario opens anything
+				for i := 0; i < 200; i++ {
+					w.leakBase, _ = orbitGoroutines()
+					if w.leakBase == 0 {
+						break
+					}
+					time.Sleep(time.Millisecond)
+				}
+			}
 			if a["kind"] != "none" {
 				if err := w.openDB(a["kind"], name, write, ints(a["peers"])); err != nil {
 					return err
@@ -138,7 +149,7 @@ func (w *World) RunScript(lines []string) (err error) {
 				continue // no entry to use as a bound
 			}
 		}
-		if toks[0] == "forge" || toks[0] == "inject" {
+		if toks[0] == "forge" || toks[0] == "inject" || ((toks[0] == "hold" || toks[0] == "waitget" || toks[0] == "syncasync" || toks[0] == "release") && strings.Contains(line, "@")) {
 			for i, t := range toks {
 				if strings.Contains(t, "@") {
 					toks[i] = w.resolveSymbols(t)
@@ -392,12 +403,24 @@ func (w *World) execOpExtra(ctx context.Context, toks []string) error {
 	if ok, err := w.execSnapOp(ctx, toks); ok || err != nil {
 		return err
 	}
+	if ok, err := w.execConcOp(ctx, toks); ok || err != nil {
+		return err
+	}
+	if ok, err := w.execEmitOp(ctx, toks); ok || err != nil {
+		return err
+	}
+	if ok, err := w.execEventOp(ctx, toks); ok || err != nil {
+		return err
+	}
+	if ok, err := w.execCloseOp(ctx, toks); ok || err != nil {
+		return err
+	}
 	if toks[0] == "unchanged" {
 		w.observe(atoi(toks[1]))
 		return nil
 	}
-	if toks[0] == "final10" || toks[0] == "final11" || toks[0] == "final12" {
-		w.printf("%s\n", toks[0])
+	if toks[0] == "final10" || toks[0] == "final11" || toks[0] == "final12" || toks[0] == "final17" || toks[0] == "final18" {
+		w.printf("%s\n", strings.Join(toks, " "))
 		return nil
 	}
 	return fmt.Errorf("unknown op %s", toks[0])
@@ -407,6 +430,9 @@ func (w *World) execOpExtra(ctx context.Context, toks []string) error {
 func (w *World) resolveSymbols(tok string) string {
 	i := strings.IndexByte(tok, '=')
 	key, val := tok[:i+1], tok[i+1:]
+	if i < 0 {
+		key, val = "", tok
+	}
 	var out []string
 	for _, part := range strings.Split(val, ",") {
 		switch {
@@ -431,4 +457,22 @@ func (w *World) resolveSymbols(tok string) string {
 		return key + "e0"
 	}
 	return key + strings.Join(out, ",")
+}
+
+// panicSite names the innermost non-runtime frames of the current panic (for the trace)
+func panicSite() string {
+	pcs := make([]uintptr, 32)
+	n := runtime.Callers(3, pcs)
+	frames := runtime.CallersFrames(pcs[:n])
+	var out []string
+	for {
+		f, more := frames.Next()
+		if !strings.HasPrefix(f.Function, "runtime.") && len(out) < 4 {
+			out = append(out, fmt.Sprintf("%s:%d", f.Function[strings.LastIndex(f.Function, "/")+1:], f.Line))
+		}
+		if !more {
+			break
+		}
+	}
+	return strings.Join(out, "<-")
 }
